@@ -385,6 +385,14 @@ class Checker(Walker):
     def visit_btree(self, obj, path, parent, is_mapping,
                     keys, kids, lo, hi):
         self.check_sorted(obj, path, keys, lo, hi)
+        # None sorts before every other key:  it can be the first key of
+        # the first bucket, but never a separator (the keys to its left
+        # would have to be smaller still).  As a bound it would go
+        # unnoticed, because None is also how "no bound" is spelled here.
+        for i, x in enumerate(keys):
+            if x is None:
+                s = "separator key None at index %d" % i
+                self.complain(s, obj, path)
 
     def visit_bucket(self, obj, path, parent, is_mapping,
                      keys, values, lo, hi):
